@@ -45,6 +45,8 @@ def run(ctx):
     ctx.assumptions += ["unit definitions are inputs (catalogue extracted from the tree)", "g++/clang++ verdicts on static_asserts",
                         "expressions multiplying two distinct unit types of identical dimension, magnitude and origin are excluded (documented limitation)"]
     cat, pre = unitcat.extract(ctx)
+    for b in unitcat.check_prefixes(ctx, pre, "mag"):
+        ctx.violation({"kind": "prefix", "prefix": b["prefix"]}, "the prefix %s does not scale by its SI / IEC factor (read out of %s<Meters>)" % (b["prefix"], b["prefix"][0].upper() + b["prefix"][1:]), detail=b)
     for idx, names in unitcat.base_dim_collisions(ctx):
         ctx.violation({"kind": "base dimensions indistinguishable", "names": names},
                       "the distinct base dimensions %s share the index %d: products and quotients mixing them cancel, so units of different dimension become "
